@@ -50,7 +50,8 @@ ActM(act)  == IF IsPar(act) THEN act.c1.k \o "+" \o act.c2.k ELSE act.m
 (* accumulator carried along one connection's history *)
 Acc0(role, trusted) ==
     [ last |-> "InitStart", term |-> FALSE, closed |-> FALSE, trust |-> (trusted \/ role = "client"),
-      nClosed |-> 0, nSetup |-> 0, nIds |-> 0, compl |-> FALSE, inj |-> <<>>, del |-> <<>>, dead |-> FALSE ]
+      nClosed |-> 0, nSetup |-> 0, nIds |-> 0, compl |-> FALSE, inj |-> <<>>, del |-> <<>>, dead |-> FALSE,
+      asked |-> FALSE ]    \* asked: CloseConnection was called on the connection (by the user, the hub, or the library itself)
 
 Cap2(n) == IF n >= 2 THEN 2 ELSE n
 
@@ -104,7 +105,7 @@ Walk(role, stored, act, a, evs, bad) ==
 (* act: [a, m, id]; ob: [st, tRun, wsOpen, buf, ev, panicked, hung]                                *)
 (* returns [acc, bad] after one environment action                                              *)
 JudgeStep(role, stored, act, acc, ob) ==
-    LET a0 == [acc EXCEPT !.trust = @ \/ Approves(act),
+    LET a0 == [acc EXCEPT !.trust = @ \/ Approves(act), !.asked = @ \/ act.a = "Close" \/ HasCall(act, "Close"),
                           !.inj = IF InjectsData(act) THEN Append(@, ActId(act)) ELSE @]
         w  == Walk(role, stored, act, a0, ob.ev, {})
         a1 == [w.acc EXCEPT !.dead = @ \/ ob.panicked \/ ob.hung]
@@ -121,7 +122,10 @@ JudgeStep(role, stored, act, acc, ob) ==
         \* the connection has not ended: a connection that ended in an error or was closed need not keep anything
         b8 == IF ~a1.dead /\ ~a1.compl /\ ~a1.term /\ ~a1.closed /\ ob.wsOpen /\ ob.buf # Len(a1.inj) - Len(a1.del)
               THEN b7 \cup {<<"C06", "datagram-not-held-back", a1.last, act.a>>} ELSE b7
-    IN  [acc |-> a1, bad |-> b8]
+        \* a connection somebody closed gets its transport closed (at the latest by the delayed goroutine of a graceful close)
+        b9 == IF act.a = "Sleep" /\ a1.asked /\ ob.wsOpen /\ ~a1.dead
+              THEN b8 \cup {<<"C04", "transport-not-closed-after-close-call", a1.last>>} ELSE b8
+    IN  [acc |-> a1, bad |-> b9]
 
 (*************************** C03: two endpoints, judged at quiescence *******************)
 (* c, s: [st, wsOpen, nSetup, idOk]; q.trustGiven: the server side trusted the client beforehand, through auto-accept,   *)
